@@ -425,12 +425,24 @@ func c07Setup(rig *c07Rig, sc c07Scenario, s *xsched.Sched) *c07Env {
 	return env
 }
 
-func c07Check(sc c07Scenario, golden map[int]string, solo []string, env *c07Env, x *xsched.Exec) []vrt.Finding {
+func c07Check(rig *c07Rig, sc c07Scenario, golden map[int]string, solo []string, env *c07Env, x *xsched.Exec) []vrt.Finding {
 	if x.Sched.Panicked != "" {
 		return vrt.F("stack/panic", "%s", x.Sched.Panicked)
 	}
 	if x.Sched.Deadlock || x.Sched.LimitHit {
 		return vrt.F("stack/deadlock", "blocked: %v limit=%v", x.Sched.Blocked, x.Sched.LimitHit)
+	}
+	// Aftermath: the same requests asked again, one after the other, on the
+	// stack as the concurrent execution left it (caches warm): a result stored
+	// under a wrong key, or a corrupted cached message, shows here.
+	if rig != nil {
+		for i, ri := range sc.Reqs {
+			q := c07Alphabet[ri]
+			want := strings.Replace(golden[ri], "id=256 ", fmt.Sprintf("id=%d ", 0x300+i), 1)
+			if got := rig.serve(q, uint16(0x300+i)); got != want {
+				return vrt.F("stack/follow-up-answer-differs", "request %s asked again after the concurrent execution of %v is answered differently from a fresh stack:\n   after : %s\n   fresh : %s\nschedule:\n%s", q.Name, sc.Reqs, got, want, x.Sched.Describe())
+			}
+		}
 	}
 	for i, ri := range sc.Reqs {
 		q := c07Alphabet[ri]
@@ -518,7 +530,7 @@ func c07Main(t *testing.T, r *vrt.Run) {
 					if fmt.Sprint(x.Choices) != fmt.Sprint(rc.Choices) {
 						return true
 					}
-					fs = c07Check(rc.Scenario, golden, solo, env, x)
+					fs = c07Check(rig, rc.Scenario, golden, solo, env, x)
 
 					return false
 				})
@@ -527,7 +539,7 @@ func c07Main(t *testing.T, r *vrt.Run) {
 			solo := c07Prepare(rig, rc.Scenario)
 			var env *c07Env
 			x := xsched.Replay(rc.Choices, func(s *xsched.Sched) { env = c07Setup(rig, rc.Scenario, s) })
-			fs = c07Check(rc.Scenario, golden, solo, env, x)
+			fs = c07Check(rig, rc.Scenario, golden, solo, env, x)
 		}
 		r.Eval()
 		r.Report("stack", rc, fs)
@@ -574,7 +586,7 @@ func c07Main(t *testing.T, r *vrt.Run) {
 				func(x *xsched.Exec) bool {
 					r.Eval()
 					r.Trans(len(x.Sched.Trace))
-					fs := c07Check(sc, golden, solo, env, x)
+					fs := c07Check(rig, sc, golden, solo, env, x)
 					obs := fmt.Sprintf("%v|%v", sc.Reqs, env.got)
 					r.Class(fmt.Sprintf("%d requests", len(sc.Reqs)))
 					if r.State(obs) {
